@@ -733,15 +733,15 @@ def check_pipeline(rec, obs, spec, steps, memo=None):
 def _check_pipeline(ctx, spec, steps, memo=None):
     import pandora.constants as cst
 
-    def run_pipeline(spec_, steps_):  # shadows the module-level runner inside this check only
+    def run_once(spec_, steps_):
         if memo is None:
-            return globals()["run_pipeline"](spec_, steps_)
+            return run_pipeline(spec_, steps_)
         ident = repr(steps_)
         if ident not in memo:
-            memo[ident] = globals()["run_pipeline"](spec_, steps_)  # a RealFailure is not kept
+            memo[ident] = run_pipeline(spec_, steps_)  # a RealFailure is not kept
         return memo[ident]
 
-    left, right, machine = run_pipeline(spec, steps)
+    left, right, machine = run_once(spec, steps)
     names, bands = band_dict(left)
     cv_names, cv_bands = band_dict(machine.left_cv)
     vol = np.array(machine.left_cv["cost_volume"].data, dtype=np.float32)
@@ -763,7 +763,7 @@ def _check_pipeline(ctx, spec, steps, memo=None):
         if ident in seen or len(sub) == len(steps):
             continue
         seen.add(ident)
-        left2, right2, machine2 = run_pipeline(spec, sub)
+        left2, right2, machine2 = run_once(spec, sub)
         names2, bands2 = band_dict(left2)
         label = "without " + ",".join(k for k, _ in steps if (k, _) not in sub) if sub else "without any confidence step"
         if not pipeline_names_ok(ctx, sub, names2, "pipeline " + label):
@@ -800,7 +800,7 @@ def _check_pipeline(ctx, spec, steps, memo=None):
             check_step_bands(ctx, vol, disps, tm, key, cfg, bands)
             method = cfg["confidence_method"]
             if method == "ambiguity" and cfg.get("normalization", True):
-                _, _, machine3 = run_pipeline(spec, [(key, dict(cfg, normalization=False))])
+                _, _, machine3 = run_once(spec, [(key, dict(cfg, normalization=False))])
                 raw = ctx.pick(machine3.left_cv, own, "step %r alone, not normalised" % key)
                 if raw:
                     check_ambiguity_normalised(ctx, bands[own[0]], raw[0])
@@ -822,7 +822,7 @@ def _check_pipeline(ctx, spec, steps, memo=None):
                     check_bracket(ctx, vol, bands[own[0]], bands[own[1]], wta, valid, "-regularised" if reg else "")
                 if reg and cfg.get("quantile_regularization", 1.0) == 1.0:
                     raw = [(k, dict(c, regularization=False)) if k == key else (k, c) for k, c in steps]
-                    left4, _, _ = run_pipeline(spec, raw)
+                    left4, _, _ = run_once(spec, raw)
                     raw4 = ctx.pick(left4, own, "step %r not regularised" % key)
                     if raw4:
                         check_widen(ctx, bands[own[0]], bands[own[1]], raw4[0], raw4[1])
